@@ -324,6 +324,10 @@ def lead (code : Str) : Str := code.takeWhile isPySpace
 theorem lead_append_lstrip (code : Str) : lead code ++ lstrip code = code := by
   simp [lead, lstrip, List.takeWhile_append_dropWhile]
 
+theorem linguaSkipped_eq (code : Str) : linguaSkipped code = 1 + countNL (lead code) := by
+  have : isPySpace '\n' = true := by decide +kernel
+  simp [linguaSkipped, lead, List.takeWhile_cons, this, countNL_cons]
+
 theorem lstrip_prep (code : Str) : lstrip ('\n' :: code) = lstrip code := by
   have : isPySpace '\n' = true := by decide +kernel
   simp [lstrip, this]
